@@ -697,6 +697,7 @@ func runC13(c *Check) {
 	c13DoneCheck(c, d)
 	// R13.4
 	c13Attempts(c, d)
+	c13JobIDs(c)
 }
 
 func c13Limits(c *Check, d *dasCtx) {
@@ -1122,4 +1123,97 @@ func c13DonePredicate(c *Check, cd *ssa.Function) {
 		res := gateWalk(p, cd, done, g.cut, nil)
 		c.Ob("R13.3", "done only if "+g.name, !res.Reached, p.Pos(cd.Pos()), "catch-up is declared done only across "+g.why, res.Witness...)
 	}
+}
+
+// c13JobIDs (R13.5): in-progress workers are tracked in a map keyed by job id, so two
+// live jobs with the same id hide one worker from the concurrency bound, the stats,
+// the checkpoint and the done test. Every function that builds a job takes its id
+// from the nextJobID counter, increments the counter exactly once, and all of them
+// agree on the order (id read after the increment in all, or before it in all) - a
+// constructor that post-increments next to one that pre-increments hands out the
+// same id twice.
+func c13JobIDs(c *Check) {
+	p := c.P
+	c.Rule("R13.5", "job ids come from one counter with one discipline in every job constructor (ids are unique)")
+	style := map[string]string{}
+	n := 0
+	for _, f := range p.FuncsOfPkg("das") {
+		var idStores []*ssa.Store
+		for _, b := range f.Blocks {
+			for _, ins := range b.Instrs {
+				st, ok := ins.(*ssa.Store)
+				if !ok {
+					continue
+				}
+				fa, ok := st.Addr.(*ssa.FieldAddr)
+				if ok && fieldOf(fa) != nil && fieldOf(fa).Name() == "id" && ownerName(fa) == "job" {
+					idStores = append(idStores, st)
+				}
+			}
+		}
+		if len(idStores) == 0 {
+			continue
+		}
+		// increments of the counter in this function
+		var incs []*ssa.Store
+		for _, b := range f.Blocks {
+			for _, ins := range b.Instrs {
+				st, ok := ins.(*ssa.Store)
+				if !ok {
+					continue
+				}
+				fa, ok := st.Addr.(*ssa.FieldAddr)
+				if ok && fieldOf(fa) != nil && fieldOf(fa).Name() == "nextJobID" {
+					incs = append(incs, st)
+				}
+			}
+		}
+		for _, st := range idStores {
+			n++
+			c.SawFunc(f)
+			key := "job.id@" + fnName(f)
+			// copying an existing job (id from another job's id field) is not a construction
+			sl := backSlice(st.Val, SliceOpt{})
+			if !sl.HasFieldNamed("coordinatorState", "nextJobID") {
+				fromJob := sl.HasFieldNamed("job", "id")
+				c.Ob("R13.5", key, fromJob, p.Pos(st.Pos()), "the id is the counter's value (or copied from an existing job)")
+				continue
+			}
+			if len(incs) != 1 {
+				c.Ob("R13.5", key, false, p.Pos(st.Pos()), fmt.Sprintf("the constructor increments nextJobID exactly once (found %d stores)", len(incs)))
+				continue
+			}
+			inc := incs[0]
+			// the load that yields the id
+			var ld *ssa.UnOp
+			for v := range sl.Vals {
+				if u, ok := v.(*ssa.UnOp); ok && u.Op == token.MUL {
+					if fa, ok := u.X.(*ssa.FieldAddr); ok && fieldOf(fa) != nil && fieldOf(fa).Name() == "nextJobID" {
+						ld = u
+					}
+				}
+			}
+			st2 := "before"
+			if ld != nil && (precedesInBlock(inc, ld) || (inc.Block() != ld.Block() && inc.Block().Dominates(ld.Block()))) {
+				st2 = "after"
+			}
+			// the incremented value itself used as id
+			if sl.Vals[inc.Val] {
+				st2 = "after"
+			}
+			style[fnName(f)] = st2
+			c.Ob("R13.5", key, true, p.Pos(st.Pos()), "id read "+st2+" the single increment of nextJobID")
+		}
+	}
+	c.Floor("R13.5", "job constructions", n, 2)
+	first := ""
+	agree := true
+	for _, v := range style {
+		if first == "" {
+			first = v
+		} else if v != first {
+			agree = false
+		}
+	}
+	c.Ob("R13.5", "constructors agree on the counter discipline", agree && len(style) >= 2, "-", fmt.Sprintf("id taken relative to the increment: %v", style))
 }
